@@ -91,6 +91,8 @@ def nint(v):
         return v
     import numpy as np
 
+    if ARGFORM == "int32" and not (-(1 << 31) <= v < (1 << 31)):
+        return np.int64(v)  # a caller's 32-bit scalar cannot hold this value: it arrives as a 64-bit one
     return getattr(np, ARGFORM)(v)
 
 
